@@ -255,7 +255,8 @@ def run_case(case):
                 r.count("value_update_phases")
             except Exception:
                 break
-        for rows in ((None,) if not cfg.get("ctx") else (1, 3, 4)):
+        # phase 1 starts with the context object used LAST in phase 0 (a one-slot memo holds that one)
+        for rows in ((None,) if not cfg.get("ctx") else ((1, 3, 4) if phase == 0 else (4, 3, 1))):
             ctx = ctx_store.setdefault(rows, contexts(cfg, rows, g) if phase == 0 else None) if rows else None
             for n in ((1, 2, 7) if phase == 0 else (2,)):
                 # ---------------- 1. pairing
